@@ -195,7 +195,12 @@ class MCLevyCopulaSimulation:
                     adj_matrix[i, j] = adj_matrix[j, i] = next(outputs)
 
         variance_matrix = np.dot(adj_matrix, adj_matrix.T) + model_variance
-        diffusion_matrix = scipy.linalg.sqrtm(variance_matrix)
+        # principal square root of the symmetric positive semi-definite variance matrix; scipy.linalg.sqrtm returns
+        # infinite entries for some singular matrices (e.g. when several margins have no diffusion part)
+        eigenvalues, eigenvectors = np.linalg.eigh(variance_matrix)
+        diffusion_matrix = (
+            eigenvectors * np.sqrt(np.maximum(eigenvalues, 0.0))
+        ) @ eigenvectors.T
         self.diffusion_matrix = diffusion_matrix
 
     def simulate_markov_chain(self) -> MarkovChain:
